@@ -111,8 +111,9 @@ PROPS = {
         "title": "exclusive, ordered use of the wrapped iterator; no data races",
         "rules": [r_ticket.rule_ticket, r_ticket.rule_gate, r_ticket.rule_ord, r_ticket.rule_sticky, r_ticket.rule_cell,
                   r_live.rule_amt_pub, r_paths.rule_paths,
-                  r_state.rule_skip, r_ovf.rule_ovf_ticket],
-        "explanation": "ORD: the load that admits a ticket holder is Acquire or stronger, every RMW that publishes is Release or "
+                  r_state.rule_skip, r_ovf.rule_ovf_ticket, r_ovf.rule_zero_ticket],
+        "explanation": "ZERO.c: no buffered puller with chunk size 0 is handed out for the ticket-admitted source (a zero-size "
+                       "reservation shares its ticket with the next caller); ORD: the load that admits a ticket holder is Acquire or stronger, every RMW that publishes is Release or "
                        "stronger (constants read from the resolved atomic calls through their wrappers), no use of the wrapped "
                        "iterator after the release; TICKET/GATE: the cell is touched only inside a held region entered through "
                        "the Equal edge of ticket == now-serving and the end flag false; CELL.d: no `&mut` reborrow of storage "
